@@ -33,12 +33,14 @@ Definition slots (n : N) : res Z :=
   | None => Panic 5          (* panic("too many items") *)
   end.
 
-(* what LoadFromSlice accepts: no key longer than math.MaxUint32 ("key too large") and fewer
-   keys than the point where calcHashtableSlots panics ("too many items": floor(4n/3) needs
-   32 bits from n = 3 * 2^29 on) *)
-Definition max_items : N := 1610612736.
+(* what LoadFromSlice accepts: no key longer than math.MaxUint32 ("key too large"), a key count
+   that fits the int32 indices of the hashtable, and one for which calcHashtableSlots does not
+   panic "too many items": floor(n / loadfactor) has at most 31 bits.  With the present load
+   factor 3/4 the last condition is n < 3 * 2^29 and implies the second. *)
 Definition small (k : bytes) : Prop := len k <= max_uint32.
-Definition loadable (kk : list bytes) : Prop := Forall small kk /\ len kk < max_items.
+Definition count_ok (n : N) : Prop :=
+  n < two31 /\ n * Z.to_N strmap_loadfactor_den / Z.to_N strmap_loadfactor_num < two31.
+Definition loadable (kk : list bytes) : Prop := Forall small kk /\ count_ok (len kk).
 
 (* n copies of x, n : N *)
 Definition nrepeat {A} (x : A) (n : N) : list A := N.iter n (cons x) [].
